@@ -844,6 +844,66 @@ theorem session_call_reproduces (h : Hidden σ K) (pre post : List (SimStep K)) 
         same := c.same, modelName := c.modelName, theta := (specSession pre a0).2.theta }
       cv (specSession pre a0).2.rdm _ c.zs c.noises c.whiten hcond hle hch hs hn hF hW
 
+/-! ### round 7: the exact branch draws a fresh signal too
+
+`fresh_signal` speaks about the *results* of the calls of `make_signal`; that those results are
+functions of the call's own draw block — also on the exact branch, where the draw only enters
+through the orthonormalisation — is read off the source text (leaves `exactDraws`, `randomDraws`:
+number of `np.random.uniform` blocks on the branch's path whose result reaches the returned signal).
+`SimCall.valueDrawn` is the call with that made explicit: a branch that consumed no draw would start
+every signal from one draw-free `fixed`. -/
+
+/-- both branches of `make_signal` consume exactly one uniform draw block, and its result reaches
+    the returned signal (exact branch: through `np.linalg.qr(true_U.transpose())`) -/
+theorem signal_branches_draw : ∀ exact : Bool, signalDrawCount exact = 1 := by
+  intro e; cases e <;> decide
+
+/-- hence on either branch the draw plan has its signal entries -/
+theorem draw_plan_for_branch (exact same : Bool) (nSim : Nat) :
+    drawPlanFor exact same nSim = drawPlan same nSim := by
+  unfold drawPlanFor
+  rw [List.filter_eq_self]
+  intro d _
+  simp [signal_branches_draw]
+
+/-- … and the call as performed is the call of `SimCall.value`: signal `i` starts from draw block `i` -/
+theorem value_drawn_eq (c : SimCall K) (a : SimArgs K) (fixed : Mat K) :
+    c.valueDrawn a fixed = c.value a := by
+  unfold SimCall.valueDrawn SimCall.value signalInput
+  simp only [signal_branches_draw, if_neg (by decide : ¬ (1 : Nat) = 0)]
+
+/-- **fresh signal on the exact (and the random) branch**: by default the signal of simulation `k` is
+    `make_signal` of draw block `k` — centred, orthonormalised by the `k`-th `qr` result if exact,
+    mixed by the factor of `G` — whatever a draw-free start `fixed` would have been; dataset `k`
+    depends on no other block (draws, `qr` results, noise of the other simulations may change
+    freely); the draws are consumed in the order signal 0, noise 0, signal 1, noise 1, … also when
+    `use_exact_signal` is set -/
+theorem fresh_signal_exact (c : SimCall K) (a : SimArgs K) (fixed : Mat K) (hfresh : c.same = false)
+    (zs' noises' : Nat → Mat K) (whiten' : Nat → Mat K → Mat K) (k : Nat) (hk : k < c.nSim)
+    (hz : c.zs k = zs' k) (hw : c.whiten k = whiten' k) (hn : c.noises k = noises' k) :
+    (∃ ds, (c.valueDrawn a fixed)[k]? = some ds ∧
+      ds.data = dataOf c.nCond a.cond.Z
+        (makeSignal c.nCond c.nCh c.exact (c.zs k) (c.whiten k)
+          (c.factor (gramOfRdm c.nCond (squareform c.nCond a.rdm))) a.cholS)
+        (HasSqrt.sqrt c.signal)
+        (noiseTerm a.cond.nObs c.nCh (c.noises k) (HasSqrt.sqrt c.noise) a.cholC a.cholT)) ∧
+    (c.valueDrawn a fixed)[k]?
+      = (SimCall.valueDrawn { c with zs := zs', whiten := whiten', noises := noises' } a fixed)[k]? ∧
+    (drawPlanFor c.exact c.same c.nSim)[2 * k]? = some (true, k) ∧
+    (drawPlanFor c.exact c.same c.nSim)[2 * k + 1]? = some (false, k) ∧
+    nSignalCalls c.same c.nSim = c.nSim := by
+  rw [value_drawn_eq, value_drawn_eq, draw_plan_for_branch]
+  have hF := fresh_signal
+    { nCond := c.nCond, nCh := c.nCh, nSim := c.nSim, signal := c.signal, noise := c.noise,
+      cholC := a.cholC, cholT := a.cholT, same := c.same, modelName := c.modelName,
+      theta := a.theta } hfresh a.cond
+    (fun i => makeSignal c.nCond c.nCh c.exact (c.zs i) (c.whiten i)
+      (c.factor (gramOfRdm c.nCond (squareform c.nCond a.rdm))) a.cholS) c.noises
+    (fun i => makeSignal c.nCond c.nCh c.exact (zs' i) (whiten' i)
+      (c.factor (gramOfRdm c.nCond (squareform c.nCond a.rdm))) a.cholS) noises' k hk
+    (by simp only [hz, hw]) hn
+  exact ⟨hF.1, hF.2.1, hF.2.2.1, hF.2.2.2.1, hF.2.2.2.2⟩
+
 end sessions
 
 /-! ### non-vacuity: concrete objects meeting the hypotheses above
@@ -933,6 +993,26 @@ example := session_call_reproduces (K := ℚ) exHidden [.call exCall] [] exCall 
   (by intro i _ a b ha hb; replace ha : a < 3 := ha; replace hb : b < 3 := hb
       change gramRows 4 exW a b = if a = b then ((4 : Nat) : ℚ) else 0
       interval_cases a <;> interval_cases b <;> decide +kernel)
+
+/-! round 7: non-vacuity of `fresh_signal_exact` — a call with the default `use_same_signal = False` on
+    the exact branch whose two draw blocks differ: the two simulations get different signals (the
+    signal is a non-constant function of its draw block), each from its own block -/
+
+def exCallFresh : SimCall ℚ :=
+  { exCall with same := false,
+                zs := fun i => fun r ch => if ch = 0 ∧ r = i then 1 else 0,
+                whiten := fun _ u => u }
+
+example : makeSignal 3 4 true (exCallFresh.zs 0) (exCallFresh.whiten 0) exC none 0 0
+    ≠ makeSignal 3 4 true (exCallFresh.zs 1) (exCallFresh.whiten 1) exC none 0 0 := by decide +kernel
+
+example := fresh_signal_exact (K := ℚ) exCallFresh exArgs (fun _ _ => 0) rfl
+  (fun i => if i = 1 then exCallFresh.zs 1 else ((fun _ _ => 7) : Mat ℚ))
+  (fun i => if i = 1 then exW else ((fun _ _ => 5) : Mat ℚ))
+  (fun i => if i = 1 then exCallFresh.whiten 1 else ((fun _ => exW) : Mat ℚ → Mat ℚ)) 1 (by decide) rfl rfl rfl
+
+example : signalDrawCount true = 1 ∧ drawPlanFor true false 2 = [(true, 0), (false, 0), (true, 1), (false, 1)] := by
+  decide
 
 end examples
 
